@@ -647,7 +647,24 @@ def rule_epoch_schedule_poll(ctx):
         for c in T.calls():
             if c["q"].endswith("BTreeMap::insert") and any("ScheduleWithLifetime" in f.ty(i).s for i in c["t"]["f"].get("ga", [])):
                 ins.append((f, T.args_of(c)))
-    nxt = [a for f, a in ins if len(a) > 1 and any(x[0] == "call" and x[1].endswith("EpochNumber::next") for x in subterms(a[1]))]
+    def key_terms(f, t):
+        """the key argument, looked through a local of the body and through a capture of the enclosing body"""
+        out = list(common.value_terms(f, ctx.T(f), t))
+        for u in list(out):
+            if u[0] == "upvar" and f.parent is not None:
+                common.owner_roots(ctx, f)
+                for g in ctx.F._creators.get(f.path, ()):
+                    Tg = ctx.T(g)
+                    for blk in g.blocks:
+                        for st in blk["s"]:
+                            if st["k"] == "assign" and st["r"]["k"] == "agg" and st["r"].get("def") == f.path:
+                                ct = Tg.rvalue(st["r"])
+                                if ct[0] == "closure":
+                                    for cap, op in zip(f.captures, ct[2]):
+                                        if cap["name"] == u[1]:
+                                            out += list(common.value_terms(g, Tg, op))
+        return out
+    nxt = [a for f, a in ins if len(a) > 1 and any(x[0] == "call" and x[1].endswith("EpochNumber::next") for u in key_terms(f, a[1]) for x in subterms(u))]
     ctx.ob(R, "pending schedule filed under the next epoch", len(nxt) >= 1, "epoch_schedule.insert(cur_epoch.next(), pending)" if nxt else "no insertion of a schedule under cur_epoch.next() found (insert keys: %s)" % [show(a[1])[:40] for f, a in ins if len(a) > 1])
 
 
